@@ -70,12 +70,102 @@ class SaveLoad(Suite):
                         "opts": rng.choice(["-", "-", "metadata", "nocompress", "metadata"]) if fmt == "tif" else "-"})
             if rest:
                 out[-1]["vals"] = rest[0]
+        out.extend(self.resave_cases(rng, big))
         return out
+
+    # ONE in-memory stack saved more than once (an 8-bit preview and the full-precision file, a TIFF and an NPY copy, ...): the stack is an
+    # ndarray (X,Y,Z,C) / (X,Y,Z), or an ImageStack (what read_imgs returns, or one built around an array) handed to save_tiff as it is.
+    OBJS = ["ndarray", "ndarray3", "stack/npy", "stack/tif", "stack/direct"]
+    KINDS = ["uint8", "uint16", "float32", "float64"]
+    SAVE_DTYPES = [None, "uint8", "uint16", "float32"]
+
+    def resave_cases(self, rng, big):
+        out = []
+        is_float = lambda k: k.startswith("float")
+        def step(kind, rescaling=None):
+            fmt = rng.choice(["tif", "tif", "tif", "tif", "npy", "nrrd"]) if rescaling is None else "tif"
+            if fmt != "tif":
+                sd = None
+            elif rescaling is None:
+                sd = rng.choice(self.SAVE_DTYPES)
+            else:
+                # a save that does (not) convert between integers and floats, i.e. one the documented rescaling applies to (or not)
+                sd = rng.choice([d for d in self.SAVE_DTYPES if ((d is not None and is_float(d) != is_float(kind)) == rescaling)])
+            stored = sd or kind
+            return {"fmt": fmt, "save_dtype": sd, "read_dtype": rng.choice(["same", "float32", "uint8", "uint16"] if stored.startswith(("uint", "float")) else ["same"])}
+        for obj in self.OBJS:
+            kinds = self.KINDS if big else [rng.choice(["uint8", "uint16"]), rng.choice(["float32", "float64"])]
+            for kind in kinds:
+                # stratified by what the FIRST save of the object does (rescaling int<->float or not); what follows is drawn freely
+                for first in ([True, False] * (2 if big else 1)):
+                    steps = [step(kind, first)] + [step(kind) for _ in range(rng.choice([1, 1, 2]))]
+                    c = rng.choice([1, 1, 3])
+                    shape = [rng.choice([1, 2, 3, 4, 5]) for _ in range(3)] + [1 if obj == "ndarray3" else c]
+                    out.append({"class": f"resave/{obj}/{kind}/" + ("rescaling-save-first" if first else "plain-save-first"), "shape": shape, "kind": kind, "obj": obj,
+                                "steps": steps, "seed": rng.randrange(10**6)})
+        return out
+
+    def run_resave(self, case):
+        from swcgeom.images.io import NDArrayImageStack, read_imgs, save_tiff
+        import nrrd
+
+        r = np.random.RandomState(case["seed"])
+        shape, kind = case["shape"], case["kind"]
+        if kind.startswith("float"):
+            a = (r.randint(0, 256, size=shape) / 255.0).astype(kind)
+        else:
+            a = r.randint(0, INT_MAX[kind] + 1, size=shape).astype(kind)
+        tmp = tempfile.mkdtemp(prefix="c20s_")
+        try:
+            with warnings.catch_warnings():
+                warnings.simplefilter("ignore")
+                obj = case["obj"]
+                dt = np.dtype(kind).type
+                if obj == "ndarray":
+                    stack = a.copy()
+                elif obj == "ndarray3":
+                    stack = a[..., 0].copy()
+                elif obj == "stack/direct":
+                    stack = NDArrayImageStack(a.copy())
+                else:
+                    src = os.path.join(tmp, "src." + obj.split("/")[1])
+                    if obj == "stack/npy":
+                        np.save(src, a)
+                    else:
+                        save_tiff(a.copy(), src)
+                    # float32 is the reader's default type
+                    stack = read_imgs(src) if kind == "float32" and case["seed"] % 2 else read_imgs(src, dtype=dt)
+                full = lambda: stack if isinstance(stack, np.ndarray) else stack.get_full()
+                held = np.array(full(), copy=True)          # the voxel values of the stack, before anything is saved
+                if held.ndim == 3:
+                    held = held[..., None]
+                res = {"orig": held.astype(np.float64).flatten().tolist(), "orig_shape": list(held.shape), "kind": str(held.dtype), "steps": []}
+                for i, st in enumerate(case["steps"]):
+                    try:
+                        fn = os.path.join(tmp, f"s{i}." + st["fmt"])
+                        if st["fmt"] == "tif":
+                            save_tiff(stack, fn, dtype=None if st["save_dtype"] is None else np.dtype(st["save_dtype"]).type)
+                        elif st["fmt"] == "nrrd":
+                            nrrd.write(fn, np.asarray(full()))
+                        else:
+                            np.save(fn, np.asarray(full()))
+                        stored = st["save_dtype"] or str(held.dtype)
+                        rdt = np.dtype(stored if st["read_dtype"] == "same" else st["read_dtype"]).type
+                        b = np.asarray(read_imgs(fn, dtype=rdt).get_full())
+                        res["steps"].append({"shape": list(b.shape), "dtype": str(b.dtype), "vals": b.astype(np.float64).flatten().tolist(),
+                                             "stored": stored, "read": np.dtype(rdt).name})
+                    except Exception as e:  # noqa: BLE001 - the oracle decides
+                        res["steps"].append({"exc": type(e).__name__, "msg": str(e)[:200]})
+            return res
+        finally:
+            shutil.rmtree(tmp, ignore_errors=True)
 
     def run(self, case):
         from swcgeom.images.io import read_imgs, save_tiff
         import nrrd
 
+        if "steps" in case:
+            return self.run_resave(case)
         r = np.random.RandomState(case["seed"])
         shape = case["shape"]
         if case["kind"] == "float32":
@@ -126,7 +216,7 @@ class SaveLoad(Suite):
 
     def lines(self, case, res):
         # the axis bookkeeping of the model on a few index tuples of this shape (exact)
-        if case["fmt"] != "tif":
+        if case.get("fmt") != "tif":
             return []
         x, y, z, c = case["shape"]
         out = []
@@ -135,17 +225,10 @@ class SaveLoad(Suite):
             out.append((f"imgaxes idx={gen.ints(idx)} axes=ZXYC", f"{gen.ints(saved)} / {gen.ints(idx)}"))
         return out
 
-    def oracle(self, case, res):
-        if "exc" in res:
-            key = "imgs-raises/" + case["class"].split("/")[1]
-            return [(key, f"save/load {case['class']} of shape {case['shape']} raised {res['exc']}: {res.get('msg')}")]
-        out = []
-        if res["shape"] != case["shape"]:
-            return [("imgs-shape", f"{case['class']}: saved shape (X,Y,Z,C)={case['shape']}, read back {res['shape']}")]
-        a = np.array(res["orig"]); b = np.array(res["vals"])
+    @staticmethod
+    def expect(a, kind, stored, read):
+        """(values, tolerance) the documented rescaling gives for values `a`: source kind -> stored kind -> read kind"""
         MAX = {"uint8": 255.0, "uint16": 65535.0, "uint32": 4294967295.0}
-        kind, stored, read = case["kind"], res["stored"], res["read"]
-        # value the documented rescaling gives: source kind -> stored kind -> read kind
         def conv(v, src, dst):
             if src == dst:
                 return v, 0.0
@@ -165,9 +248,54 @@ class SaveLoad(Suite):
         tol = max(tol2, tol1 * (MAX.get(read, 1.0) / MAX.get(stored, 1.0) if read.startswith("uint") or stored.startswith("uint") else 1.0), 1e-6)
         if read.startswith("float") and stored.startswith("uint") and kind.startswith("float"):
             tol = 1.0 / MAX[stored] + 1e-6
-        if not np.all(np.abs(b - w2) <= tol):
+        return w2, tol
+
+    def oracle(self, case, res):
+        try:
+            return self._oracle_seq(case, res) if "steps" in case else self._oracle(case, res)
+        except Exception as e:  # noqa: BLE001 - a result the oracle cannot even read is not what the property promises
+            return [("imgs-malformed-result", f"{case.get('class')}: the result of the save/load could not be judged ({type(e).__name__}: {str(e)[:200]}): {str(res)[:300]}")]
+
+    def _oracle(self, case, res):
+        if "exc" in res:
+            key = "imgs-raises/" + case["class"].split("/")[1]
+            return [(key, f"save/load {case['class']} of shape {case['shape']} raised {res['exc']}: {res.get('msg')}")]
+        out = []
+        if res["shape"] != case["shape"]:
+            return [("imgs-shape", f"{case['class']}: saved shape (X,Y,Z,C)={case['shape']}, read back {res['shape']}")]
+        a = np.array(res["orig"]); b = np.array(res["vals"])
+        w2, tol = self.expect(a, case["kind"], res["stored"], res["read"])
+        if b.shape != w2.shape or not np.all(np.abs(b - w2) <= tol):
             i = int(np.argmax(np.abs(b - w2)))
             out.append(("imgs-values", f"{case['class']} shape {case['shape']}: voxel #{i} read back {b[i]}, expected {w2[i]} (orig {a[i]})"))
+        return out
+
+    def _oracle_seq(self, case, res):
+        # ONE stack, saved several times: every file, read back, shows the voxel values of the stack (the values it was created with - saving a
+        # stack is not an assignment to it), up to the documented rescaling of THAT save / read
+        if "exc" in res:
+            return [("imgs-raises/" + case["class"], f"{case['class']} of shape {case['shape']}: building the stack raised {res['exc']}: {res.get('msg')}")]
+        out = []
+        a = np.array(res["orig"], dtype=np.float64); kind = str(res["kind"])
+        if list(res["orig_shape"]) != list(case["shape"]) or a.size != int(np.prod(case["shape"])):
+            return [("imgs-shape", f"{case['class']}: the stack built from a {case['shape']} array has shape {res['orig_shape']}")]
+        steps = res.get("steps") or []
+        if len(steps) != len(case["steps"]):
+            out.append(("imgs-malformed-result", f"{case['class']}: {len(case['steps'])} saves asked, {len(steps)} results"))
+        for i, (st, r) in enumerate(zip(case["steps"], steps)):
+            what = f"{case['class']} shape {case['shape']}, save #{i + 1} of the same stack ({st['fmt']}, dtype={st['save_dtype']}, read as {st['read_dtype']})"
+            if "exc" in r:
+                out.append((f"imgs-raises/{kind}->{st['save_dtype']}->{st['read_dtype']}", f"{what} raised {r['exc']}: {r.get('msg')}"))
+                continue
+            if list(r["shape"]) != list(case["shape"]):
+                out.append(("imgs-shape", f"{what}: saved shape (X,Y,Z,C)={case['shape']}, read back {r['shape']}"))
+                continue
+            b = np.array(r["vals"], dtype=np.float64)
+            w2, tol = self.expect(a, kind, str(r["stored"]), str(r["read"]))
+            if b.shape != w2.shape or not np.all(np.abs(b - w2) <= tol):
+                j = int(np.argmax(np.abs(b - w2))) if b.shape == w2.shape else 0
+                out.append(("imgs-values" if i == 0 else "imgs-values-resaved",
+                            f"{what}: voxel #{j} read back {b[j] if b.size > j else None}, expected {w2[j]} (the stack holds {a[j]})"))
         return out
 
     def nontrivial(self, case, res):
@@ -188,6 +316,61 @@ def in_hull(p, a, b, ra, rb, margin):
         t = min(1.0, max(0.0, (s + k * rho / math.sqrt(1 - k * k)) / L))
         best = min(best, np.linalg.norm(p - (a + t * (b - a))) - (ra + t * (rb - ra)))
     return -1 if best < -margin else (1 if best > margin else 0)
+
+
+def hull_side(P, a, b, ra, rb, margin):
+    """`in_hull` for many points at once: array of -1 / 0 / +1 (inside by margin / near the surface / outside by margin)"""
+    ts = np.linspace(0, 1, 41)
+    c = a[None, :] + ts[:, None] * (b - a)[None, :]; rr = ra + ts * (rb - ra)
+    best = np.min(np.linalg.norm(P[:, None, :] - c[None, :, :], axis=2) - rr[None, :], axis=1)
+    L = float(np.linalg.norm(b - a))
+    if L > 0 and abs(rb - ra) < L:
+        u = (b - a) / L; s = (P - a) @ u; rho = np.linalg.norm(P - a - s[:, None] * u[None, :], axis=1); k = (rb - ra) / L
+        t = np.clip((s + k * rho / math.sqrt(1 - k * k)) / L, 0.0, 1.0)
+        best = np.minimum(best, np.linalg.norm(P - (a[None, :] + t[:, None] * (b - a)[None, :]), axis=1) - (ra + t * (rb - ra)))
+    return np.where(best < -margin, -1, np.where(best > margin, 1, 0))
+
+
+def bbox_shape(xyz, r, rs):
+    """bounding box of the balls and the (Z, X, Y) shape of the grid of voxel centres lo + (i + 1/2)·res inside it"""
+    lo = np.floor(np.min(xyz - r.reshape(-1, 1), axis=0)); hi = np.ceil(np.max(xyz + r.reshape(-1, 1), axis=0))
+    n = [max(0, int(math.ceil((hi[i] - lo[i] - rs[i] / 2) / rs[i]))) for i in range(3)]
+    return lo, hi, [n[2], n[0], n[1]]
+
+
+def judge_raster(xyz, r, pids, rs, shape, lit, margin=0.08):
+    """the property's conclusion on ONE raster: findings [(key, msg)] for a (Z, X, Y) = `shape` stack with lit voxels `lit` of the tree
+    (xyz, r, pids: parent INDEX per node, -1 for the root) at resolution `rs`"""
+    lo, hi, want = bbox_shape(xyz, r, rs)
+    if list(shape) != want:
+        return [("raster-shape", f"stack shape (Z,X,Y)={list(shape)}, the bounding box {lo}..{hi} at resolution {rs} needs {want}")]
+    Z, X, Y = want
+    if Z * X * Y == 0:
+        return []
+    k, i, j = np.meshgrid(np.arange(Z), np.arange(X), np.arange(Y), indexing="ij")
+    k, i, j = k.ravel(), i.ravel(), j.ravel()
+    P = np.stack([lo[0] + (i + 0.5) * rs[0], lo[1] + (j + 0.5) * rs[1], lo[2] + (k + 0.5) * rs[2]], axis=1)
+    inside = np.zeros(len(P), dtype=bool); near = np.zeros(len(P), dtype=bool)
+    for c, par in enumerate(pids):
+        if par < 0:
+            continue
+        v = hull_side(P, xyz[par], xyz[c], float(r[par]), float(r[c]), margin)
+        inside |= v == -1; near |= v == 0
+    outside = ~inside & ~near
+    is_lit = np.zeros(len(P), dtype=bool)
+    for v in lit:
+        if len(v) != 3 or not (0 <= v[0] < Z and 0 <= v[1] < X and 0 <= v[2] < Y):
+            return [("raster-shape", f"lit voxel {v} outside the (Z,X,Y)={want} stack")]
+        is_lit[(v[0] * X + v[1]) * Y + v[2]] = True
+    bad = np.flatnonzero(inside & ~is_lit)
+    if len(bad):
+        q = int(bad[0])
+        return [("raster-unlit-inside", f"voxel (z,x,y)=({k[q]},{i[q]},{j[q]}) centre {P[q].tolist()} is inside a round cone but not lit ({len(bad)} such voxels)")]
+    bad = np.flatnonzero(outside & is_lit)
+    if len(bad):
+        q = int(bad[0])
+        return [("raster-lit-outside", f"voxel (z,x,y)=({k[q]},{i[q]},{j[q]}) centre {P[q].tolist()} is lit but outside every round cone ({len(bad)} such voxels)")]
+    return []
 
 
 class Raster(Suite):
@@ -266,13 +449,152 @@ class Raster(Suite):
         t["xyz"] = [[0.0, 0.0, 0.0], [0.5, 0.0, 3.0]]; t["r"] = [1.0, 1.0]      # z-extent of the box: 5
         for res in ([1.0, 1.0, 3.0], 0.75):
             out.append({"class": "n2/indivisible", "tree": t, "res": res})
+        out.extend(self.seq_cases(rng, tier == "thorough" or widen))
         return out
+
+    # a SEQUENCE of rasterisations, as a pipeline does them: a neuron read from an SWC file (it then carries its `source`) or built in memory, and
+    # variants of it - the augmentations and edits of the library (translated, mirrored, rescaled, radii reset, a tip pruned, the file edited and
+    # read again) -, each rasterised through one of the three entry points (__call__, transform, transform_and_save + read_imgs), with ONE
+    # ToImageStack object for the whole sequence or a new one per tree.  Every stack of the sequence is judged against the tree it was made from.
+    DERIVE = ["translate", "mirror", "scale", "radius", "prune", "rewrite", "same"]
+    VIA = ["call", "transform", "save"]
+
+    def seq_cases(self, rng, big):
+        out = []
+        plan = [("file", True)] * 5 + [("file", False), ("memory", True), ("memory", True)]
+        for origin, shared in plan * (3 if big else 1):
+            n = rng.choice([2, 3, 3, 4] + ([6, 9] if big else []))
+            t = gen.tree_case(rng, n, rng.choice(["chain", "caterpillar", "stem", "random", "star"]), numbering="sorted", coords="lattice")
+            t["xyz"] = [[c / 8.0 for c in p] for p in t["xyz"]]
+            t["r"] = [rng.choice([0.5, 1.0, 1.5]) for _ in t["r"]]
+            steps = [{"derive": "load", "via": rng.choice(self.VIA)}]
+            size = {"first": t["n"], "prev": t["n"]}
+            for _ in range(rng.choice([1, 2, 2, 3] if not big else [2, 3, 4])):
+                of = rng.choice(["first", "prev"])
+                kinds = [d for d in self.DERIVE if (d != "prune" or size[of] >= 3) and (d != "rewrite" or origin == "file")]
+                d = rng.choice(kinds)
+                st = {"derive": d, "of": of, "via": rng.choice(self.VIA)}
+                if d == "translate":
+                    st["by"] = [rng.choice([-1, 1]) * rng.randint(1, 12) / 4.0 if rng.random() < 0.7 else 0.0 for _ in range(3)]
+                    if not any(st["by"]):
+                        st["by"][rng.randrange(3)] = rng.randint(1, 12) / 4.0
+                elif d == "mirror":
+                    st["axis"] = rng.randrange(3)
+                elif d == "scale":
+                    st["by"] = rng.choice([[0.5] * 3, [2.0] * 3, [1.5] * 3, [2.0, 1.0, 0.5], [1.0, 1.5, 1.0]])
+                elif d == "radius":
+                    st["r"] = rng.choice([0.5, 0.75, 1.0, 1.5, 2.0])
+                elif d == "prune":
+                    st["leaf"] = rng.randrange(1000)
+                elif d == "rewrite":
+                    # the file is edited (a node moved, a radius changed) and read again
+                    t2 = {**t, "xyz": [list(p) for p in t["xyz"]], "r": list(t["r"])}
+                    c = rng.randrange(t2["n"])
+                    t2["xyz"][c] = [v + rng.choice([-8, -4, -2, 2, 4, 8]) / 8.0 for v in t2["xyz"][c]]
+                    c = rng.randrange(t2["n"])
+                    t2["r"][c] = rng.choice([x for x in (0.5, 1.0, 1.5) if x != t2["r"][c]])
+                    st["tree"] = t2
+                size["prev"] = size[of] - 1 if d == "prune" else (t["n"] if d == "rewrite" else size[of])
+                steps.append(st)
+            out.append({"class": f"seq/{origin}/{'one-transform' if shared else 'fresh-transform'}/{len(steps)}-trees",
+                        "tree": t, "res": rng.choice([0.5, 1.0, 0.75, [1.0, 0.5, 2.0], [0.5, 0.5, 1.0]]), "origin": origin, "shared": shared, "steps": steps})
+        return out
+
+    def run_seq(self, case):
+        from swcgeom.core import Tree, to_subtree
+        from swcgeom.images.io import read_imgs
+        from swcgeom.transforms import RadiusReseter, Scale, ToImageStack, Translate
+
+        tmp = tempfile.mkdtemp(prefix="c20q_")
+        path = os.path.join(tmp, "neuron.swc")
+
+        def load(td):
+            if case["origin"] != "file":
+                return gen.make_tree(td)
+            with open(path, "w") as f:
+                f.write("# id type x y z r pid\n")
+                for i in range(td["n"]):
+                    x, y, z = td["xyz"][i]
+                    f.write(f"{i + 1} {td['types'][i]} {x!r} {y!r} {z!r} {td['r'][i]!r} {td['pids'][i] + 1 if td['pids'][i] >= 0 else -1}\n")
+            return Tree.from_swc(path)
+
+        def derive(st, first, prev):
+            d = st["derive"]
+            if d == "load":
+                return load(case["tree"])
+            if d == "rewrite":
+                return load(st["tree"])
+            t = first if st["of"] == "first" else prev
+            if d == "same":
+                return t
+            if d == "translate":
+                return Translate(*st["by"])(t)
+            if d == "mirror":
+                return Scale(*[-1.0 if i == st["axis"] else 1.0 for i in range(3)], center="root")(t)
+            if d == "scale":
+                return Scale(*st["by"], center="root")(t)
+            if d == "radius":
+                return RadiusReseter(st["r"])(t)
+            if d == "prune":
+                ids, pid = [int(v) for v in t.id()], [int(v) for v in t.pid()]
+                leaves = [i for i in ids if i not in pid and pid[ids.index(i)] != -1]
+                return to_subtree(t, [leaves[st["leaf"] % len(leaves)]])
+            raise ValueError(d)
+
+        try:
+            shared = ToImageStack(case["res"]) if case["shared"] else None
+            first = prev = None
+            out = []
+            for i, st in enumerate(case["steps"]):
+                with warnings.catch_warnings():
+                    warnings.simplefilter("ignore")
+                    try:
+                        t = derive(st, first, prev)
+                        ids = [int(v) for v in t.id()]
+                        geom = {"xyz": np.asarray(t.xyz(), dtype=np.float64).tolist(), "r": np.asarray(t.r(), dtype=np.float64).tolist(),
+                                "pids": [ids.index(int(p)) if int(p) != -1 else -1 for p in t.pid()], "has_source": bool(t.source)}
+                    except Exception as e:  # noqa: BLE001 - preparing the input is not what C20 speaks about: the sequence ends here
+                        out.append({"setup_exc": type(e).__name__, "msg": str(e)[:200]})
+                        break
+                    first = t if first is None else first
+                    prev = t
+                    r = {"geom": geom}
+                    try:
+                        tr = shared if shared is not None else ToImageStack(case["res"])
+                        if st["via"] == "call":
+                            img = tr(t)
+                        elif st["via"] == "transform":
+                            img = np.stack(list(tr.transform(t, verbose=False)), axis=0)
+                        else:
+                            fn = os.path.join(tmp, f"r{i}.tif")
+                            tr.transform_and_save(fn, t, verbose=False)
+                            try:
+                                back = np.asarray(read_imgs(fn, dtype=np.uint8).get_full())
+                            except Exception as e:  # noqa: BLE001 - the oracle decides
+                                r["saved_exc"] = {"exc": type(e).__name__, "msg": str(e)[:200]}
+                                back = None
+                            if back is not None:
+                                r["saved_shape"] = list(back.shape)
+                                img = np.moveaxis(back[..., 0], 2, 0) if back.ndim == 4 else None      # (X, Y, Z, C) -> (Z, X, Y)
+                            else:
+                                img = None
+                        if img is not None:
+                            img = np.asarray(img)
+                            r.update({"shape": list(img.shape), "lit": np.argwhere(img > 0).tolist(), "values": sorted(set(int(v) for v in np.unique(img)))})
+                    except Exception as e:  # noqa: BLE001 - the oracle decides
+                        r.update({"exc": type(e).__name__, "msg": str(e)[:200]})
+                    out.append(r)
+            return {"steps": out}
+        finally:
+            shutil.rmtree(tmp, ignore_errors=True)
 
     def run(self, case):
         from swcgeom.transforms import ToImageStack
 
         import swcgeom.transforms.image_stack as mod
 
+        if "steps" in case:
+            return self.run_seq(case)
         t = gen.make_tree(case["tree"])
         # record which solid the scene builder creates for each edge (wrapping the constructors it looks up in its own module)
         solids = []
@@ -313,7 +635,7 @@ class Raster(Suite):
         return res
 
     def lines(self, case, res):
-        if "exc" in res:
+        if "exc" in res or "steps" in case:
             return []
         t = case["tree"]
         rs = case["res"] if isinstance(case["res"], list) else [case["res"]] * 3
@@ -348,6 +670,50 @@ class Raster(Suite):
         return out + edge_lines
 
     def oracle(self, case, res):
+        try:
+            return self._oracle_seq(case, res) if "steps" in case else self._oracle(case, res)
+        except Exception as e:  # noqa: BLE001 - a result the oracle cannot even read is not a raster of the tree
+            return [("raster-malformed-result", f"{case.get('class')}: the result could not be judged ({type(e).__name__}: {str(e)[:200]}): {str(res)[:300]}")]
+
+    def _oracle_seq(self, case, res):
+        if "exc" in res:
+            return [("raster-raises", f"{case['class']}: {res['exc']}: {res.get('msg')}")]
+        rs = [float(v) for v in (case["res"] if isinstance(case["res"], list) else [case["res"]] * 3)]
+        out = []
+        steps = res.get("steps") or []
+        if len(steps) != len(case["steps"]) and not any("setup_exc" in r for r in steps):
+            out.append(("raster-malformed-result", f"{case['class']}: {len(case['steps'])} rasterisations asked, {len(steps)} results"))
+        for i, (st, r) in enumerate(zip(case["steps"], steps)):
+            if "setup_exc" in r:
+                break
+            g = r["geom"]
+            xyz = np.array(g["xyz"], dtype=np.float64).reshape(-1, 3); rad = np.array(g["r"], dtype=np.float64)
+            what = (f"rasterisation #{i + 1} of the sequence ({st['derive']}, via {st['via']}, {'the same' if case['shared'] else 'a new'} ToImageStack({case['res']}), "
+                    f"tree {'with' if g.get('has_source') else 'without'} source; nodes {g['xyz']}, radii {g['r']}, parents {g['pids']})")
+            lo, hi, want = bbox_shape(xyz, rad, rs)
+            if "exc" in r:
+                if want[0] == 0 and r["exc"] == "ValueError" and "at least one array to stack" in str(r.get("msg")):
+                    out.append(("raster-empty-z-grid-raises", f"{what}: resolution {rs} leaves no z plane in the bounding box {lo}..{hi}: raises {r['exc']}: {r.get('msg')} instead of returning a (0, X, Y) stack"))
+                else:
+                    out.append(("raster-raises", f"{what}: {r['exc']}: {r.get('msg')}"))
+                continue
+            if "saved_exc" in r:
+                sv = r["saved_exc"]
+                if want[0] == 1 and sv["exc"] == "AssertionError" and "Should be shape" in str(sv["msg"]):
+                    out.append(("raster-file-single-plane-raises", f"{what}: a raster of ONE z plane written by transform_and_save cannot be read back: read_imgs raises {sv['exc']}: {sv['msg']}"))
+                else:
+                    out.append(("raster-saved-raises", f"{what}: transform_and_save + read_imgs raised {sv['exc']}: {sv['msg']}"))
+                continue
+            if "shape" not in r:
+                out.append(("raster-saved-differs", f"{what}: transform_and_save + read_imgs gives an array of shape {r.get('saved_shape')}, not (X,Y,Z,1)"))
+                continue
+            if "saved_shape" in r and (len(r["saved_shape"]) != 4 or r["saved_shape"][3] != 1):
+                out.append(("raster-saved-differs", f"{what}: transform_and_save + read_imgs gives an array of shape {r['saved_shape']}, not (X,Y,Z,1)"))
+                continue
+            out.extend((k, f"{what}: {m}") for k, m in judge_raster(xyz, rad, g["pids"], rs, r["shape"], r["lit"]))
+        return out
+
+    def _oracle(self, case, res):
         t = case["tree"]
         rs = case["res"] if isinstance(case["res"], list) else [case["res"]] * 3
         xyz = np.array(t["xyz"], dtype=np.float64); r = np.array(t["r"], dtype=np.float64)
